@@ -304,11 +304,16 @@ func GenPat(t *rapid.T, depth int, o PatOpts) *Pat {
 // GenCornerPat draws one of the corner shapes with equal probability (inside GenPat they are rare).
 func GenCornerPat(t *rapid.T, o PatOpts) *Pat {
 	which := 0
-	for i := 0; i < 4; i++ {
+	for i := 0; i < 5; i++ {
 		which *= 2
 		if rapid.Bool().Draw(t, "cornerbit") {
 			which++
 		}
+	}
+	if which >= 20 {
+		which %= 16
+	} else if which >= 18 {
+		which -= 2
 	}
 	return genCorner(t, GenPat(t, rapid.IntRange(0, 1).Draw(t, "cornerdepth"), o), o, which)
 }
@@ -319,6 +324,25 @@ func genCorner(t *rapid.T, x *Pat, o PatOpts, which int) *Pat {
 		which = 10
 	}
 	switch which {
+	case 16, 17:
+		// a word that begins (and ends) at a word boundary: \b[a-c]+ , \b\w+\b -- the assertion is evaluated at the
+		// first and at the last byte of the input like anywhere else
+		if o.NoAnchors {
+			return x
+		}
+		cls := rapid.SampledFrom([]string{`[a-c]`, `\w`, `\d`, `[0-9a-f]`}).Draw(t, "wbclass")
+		var spec classSpec
+		for _, c := range classes {
+			if c.text == cls {
+				spec = c
+			}
+		}
+		word := &Pat{Kind: "rep", Min: 1, Max: -1, Kids: []*Pat{{Kind: "class", Text: spec.text, Sample: spec.sample}}}
+		kids := []*Pat{{Kind: "anchor", Text: `\b`}, word}
+		if which == 17 {
+			kids = append(kids, &Pat{Kind: "anchor", Text: `\b`})
+		}
+		return &Pat{Kind: "cat", Kids: kids}
 	case 12, 13:
 		// alternatives that share their first byte with an earlier alternative that is not their neighbour
 		set := rapid.SampledFrom([][]string{{"begin", "end", "break"}, {"<=", ">=", "<>", "=="}, {"ab", "c", "ac"}, {"é1", "x", "é2"}, {"if", "else", "in"}}).Draw(t, "kwset")
